@@ -80,6 +80,22 @@ pub fn hugeify<T: Subj>(mut p: Plan<T>, max_a: usize, max_b: usize) -> Plan<T> {
     if let Some(e) = p.aux.get_mut(&Aux::Exp) {
         e.retain(|x| *x <= 3 || *x == 7 || (*x + 1 >= bits && *x <= bits + 1) || *x >= (1 << 32) - 2);
     }
+    if let Some(sh) = p.aux.get_mut(&Aux::Shift) {
+        // shift amounts: the neighbourhoods of the first / middle / last digit boundaries, of every 16th
+        // boundary, of the powers of two, and everything from BITS - 1 on
+        let w = T::DIGIT_BITS as u64;
+        sh.retain(|x| {
+            let x = *x;
+            let k = x / w;
+            x <= 2 * w + 1
+                || x + 2 * w + 1 >= bits
+                || (x + w + 1 >= bits / 2 && x <= bits / 2 + w + 1)
+                || ((k + 1) % 16 <= 1 && (x % w <= 1 || x % w == w - 1))
+                || (x + 1).is_power_of_two()
+                || x.is_power_of_two()
+                || (x - 1).is_power_of_two()
+        });
+    }
     p.label = format!("HUGE ({} bits): {}", bits, p.label);
     p
 }
